@@ -1557,6 +1557,13 @@ func c20Run(t *testing.T, focusID string, runMode string) {
 		prev := make([]c20Leaves, len(nodes)) // previously effective settings of the focused section, per node
 		for i := range prev {
 			prev[i] = focus.defaults
+			if annotated && annotation[i] != "" { // effective at start-up: the defaults plus the node's own annotation
+				prev[i] = c20Leaves{}
+				for p, x := range focus.defaults {
+					prev[i][p] = x
+				}
+				prev[i]["/totalNetworkBandwidth"] = c20Val{c20KQuantity, annotation[i]}
+			}
 		}
 		oldSpecs := make([]*slov1alpha1.NodeSLOSpec, len(nodes))
 
